@@ -348,17 +348,18 @@ class Real:
         from maltoolbox.language import LanguageGraph, LanguageClassesFactory
         self.lang = lang
         self.nav_budget = nav_budget
-        self.lg = LanguageGraph(lang.spec())
-        key = _class_key(lang)
-        self.lcf = _LCF_CACHE.get(key)
-        if self.lcf is None:
-            self.lcf = _LCF_CACHE[key] = LanguageClassesFactory(LanguageGraph(lang.spec()))
         self.build_error = None
         self.model = None
         self.objs = []
         self._memo = {}
-        self._stage = ""
-        try:
+        self._stage = "maltoolbox.language.languagegraph:LanguageGraph.__init__"
+        try:                              # a library exception on a well-formed input is a finding, not a harness error
+            self.lg = LanguageGraph(lang.spec())
+            key = _class_key(lang)
+            self.lcf = _LCF_CACHE.get(key)
+            if self.lcf is None:
+                self._stage = "maltoolbox.language.classes_factory:LanguageClassesFactory.__init__"
+                self.lcf = _LCF_CACHE[key] = LanguageClassesFactory(LanguageGraph(lang.spec()))
             self._build(mrec)
         except Exception as ex:
             self.build_error = ex
